@@ -13,6 +13,7 @@ var commands = map[string]func([]string){
 	"c11": runC11,
 	"c12": runC12,
 	"c15": runC15,
+	"c16": runC16,
 	"c17": runC17,
 	"c18": runC18,
 }
